@@ -523,7 +523,7 @@ func run(c Case, ev *pbt.Ev) error {
 }
 
 func TestProp_Differential(t *testing.T) {
-	pbt.Run(t, pbt.Options{Prop: "C05", Name: "Differential", Quick: 3000, Thorough: 120000, Current: true, Timeout: 120 * time.Second,
+	pbt.Run(t, pbt.Options{Prop: "C05", Name: "Differential", Quick: 3000, Thorough: 24000, Current: true, Timeout: 120 * time.Second,
 		Rule: "rapid: blob = builder output under generated options, or a third-party TOC written by the independent layout writer (implicit parents, repeated directory entries with other / zeroed attributes, chunkDigest without digest, ./ / ../ spellings, explicit root entry with attrs, " +
 			"1-8192 bytes of whitespace after the TOC JSON, innerOffset streams, compact or indented JSON) x {gzip, zstd, external TOC} x Clone x pre-reader; oracle: memory vs db store field by field (TOCDigest + independent sha256 of the TOC file, accept/reject on first use, sorted full walk: names, listing mode, attrs incl. " +
 			"numlink (0==1) and xattrs, GetOffset, hardlink partition, ChunkEntryForOffset at every boundary +-1, ReadAt inside chunks, pre-reader chunk digests). non-trivial = third-party TOC, or builder blob with a hardlink and a multi-chunk file",
@@ -673,7 +673,7 @@ func runMulti(mc MultiCase, ev *pbt.Ev) error {
 }
 
 func TestProp_MultiLayer(t *testing.T) {
-	pbt.Run(t, pbt.Options{Prop: "C05", Name: "MultiLayer", Quick: 300, Thorough: 20000, Current: true, Timeout: 120 * time.Second,
+	pbt.Run(t, pbt.Options{Prop: "C05", Name: "MultiLayer", Quick: 300, Thorough: 2400, Current: true, Timeout: 120 * time.Second,
 		Rule: "rapid: 2-5 generated layers opened concurrently in ONE bolt DB, each walked completely before, while (concurrently) and after every other layer is closed, in a generated close order; oracle: every walk equals the walk of the same blob opened alone; the filesystems bucket is empty at the end. non-trivial = every case (>= 2 layers alive in one DB)",
 	}, genMulti, runMulti)
 }
